@@ -1140,6 +1140,11 @@ def grids_structure(tier):
             out.append(["unit", [N], [per]])
         out.append(["cart", [[-1, 2]], [5 if q else 7], [per]])
     out.append(["cart", [[1e-3, 3e-3]], [4 if q else 6], [False]])
+    # long single axes with EVERY chunk count: the chunk edges are computed in floating point (num/chunks), the first
+    # (cells, chunks) pairs at which such arithmetic can round the wrong way lie well above the small shapes (e.g. 15/11)
+    for N in range(8, (40 if q else 80) + 1):
+        out.append(["unit", [N], [False]])
+        out.append(["unit", [N], [True]])
     shapes2 = [[4, 3], [1, 4], [3, 3]] if q else [[7, 5], [1, 7], [6, 6], [4, 7]]
     for k, shp in enumerate(shapes2):
         for per in periodic_mixes(2):
